@@ -1266,6 +1266,16 @@ func (c *Check) confirm(v *Violation) *Violation {
 func (c *Check) writeReplay(mp *plan.Plan, mv, orig *Violation, dims []string) string {
 	q := clonePlan(mp)
 	q.Uncontrolled = c.env.Uncontrol
+	if len(q.MapOrder.Sites) > 0 {
+		q.SiteTable = map[string]plan.SiteRef{}
+		for id := range q.MapOrder.Sites {
+			var n int
+			fmt.Sscan(id, &n)
+			if s, ok := c.env.Sites[n]; ok {
+				q.SiteTable[id] = plan.SiteRef{File: s.File, Line: s.Line, Func: s.Func, Kind: s.Kind, Ordinal: c.env.siteOrdinal(s)}
+			}
+		}
+	}
 	rec := "1/1"
 	if strings.HasPrefix(mv.Class, "race:") {
 		rec = ">=2/3"
